@@ -13,7 +13,11 @@
 (*   "err"   the scan ends with an error (timeout, stack limit) in the     *)
 (*           middle of an attempt: stacks and captures are left as they    *)
 (*           are                                                           *)
-(*   "repl"  looks the replacement up in the LRU, then scans               *)
+(*   "repl"  looks the replacement up in the LRU (CacheGet, one critical   *)
+(*           section), on a miss parses it outside any lock and inserts it *)
+(*           (CacheAdd, a second critical section that looks the key up    *)
+(*           again, since another goroutine may have inserted it in        *)
+(*           between), then scans                                          *)
 (* Steps of a call: Get (take an idle runner or make one), Select (switch  *)
 (* to the quick code), Init (initMatch: reset), Scan, Put (restore code,   *)
 (* return to pool).  sync.Pool may drop idle runners at any time.          *)
@@ -33,7 +37,8 @@ CONSTANTS Gor,        \* goroutines
           MaxCalls,   \* calls per goroutine
           Runners,    \* universe of runner identities
           Keys,       \* replacement strings
-          MaxLRU
+          MaxLRU,
+          Recheck     \* TRUE: CacheAdd looks the key up again (the code as written); FALSE: it inserts blindly
 
 VARIABLES idle,      \* runners in the pool
           made,      \* runners that exist
@@ -42,47 +47,55 @@ VARIABLES idle,      \* runners in the pool
           hasMatch,  \* runner -> does it still hold a recycled match object?
           pc, cur, held, ncalls,   \* per goroutine: step, current call kind, runner held, calls made
           lru,       \* sequence of keys, most recent first
+          ckey,      \* per goroutine: the replacement string of the current "repl" call
           sawClean, ranCode        \* observations of the last scan per goroutine
-vars == <<idle, made, code, dirty, hasMatch, pc, cur, held, ncalls, lru, sawClean, ranCode>>
+vars == <<idle, made, code, dirty, hasMatch, pc, cur, held, ncalls, lru, ckey, sawClean, ranCode>>
 
 NoRunner == 0
 
 Init == /\ idle = {} /\ made = {}
         /\ code = [r \in Runners |-> "full"] /\ dirty = [r \in Runners |-> FALSE] /\ hasMatch = [r \in Runners |-> FALSE]
         /\ pc = [g \in Gor |-> "idle"] /\ cur = [g \in Gor |-> "find"] /\ held = [g \in Gor |-> NoRunner]
-        /\ ncalls = [g \in Gor |-> 0] /\ lru = <<>>
+        /\ ncalls = [g \in Gor |-> 0] /\ lru = <<>> /\ ckey = [g \in Gor |-> CHOOSE k \in Keys : TRUE]
         /\ sawClean = [g \in Gor |-> TRUE] /\ ranCode = [g \in Gor |-> "full"]
 
 Begin(g, k) == /\ pc[g] = "idle" /\ ncalls[g] < MaxCalls
                /\ cur' = [cur EXCEPT ![g] = k] /\ ncalls' = [ncalls EXCEPT ![g] = @ + 1]
-               /\ pc' = [pc EXCEPT ![g] = IF k = "repl" THEN "cache" ELSE "get"]
+               /\ IF k = "repl" THEN \E key \in Keys : ckey' = [ckey EXCEPT ![g] = key] ELSE UNCHANGED ckey
+               /\ pc' = [pc EXCEPT ![g] = IF k = "repl" THEN "cget" ELSE "get"]
                /\ UNCHANGED <<idle, made, code, dirty, hasMatch, held, lru, sawClean, ranCode>>
 
-\* replacement cache (under its mutex: one atomic step): hit moves to front, miss inserts and evicts the oldest
-Cache(g, key) == /\ pc[g] = "cache"
-                 /\ lru' = LET without == SelectSeq(lru, LAMBDA x : x # key)
-                               ins == <<key>> \o without
-                           IN IF Len(ins) > MaxLRU THEN SubSeq(ins, 1, MaxLRU) ELSE ins
-                 /\ pc' = [pc EXCEPT ![g] = "get"]
-                 /\ UNCHANGED <<idle, made, code, dirty, hasMatch, cur, held, ncalls, sawClean, ranCode>>
+\* replacement cache.  Each of the two steps is one critical section of the cache mutex (that they are atomic is what
+\* Obs_Pool's rule cache.atomic checks on the real code); nothing is held between them.
+InLRU(key) == \E i \in 1..Len(lru) : lru[i] = key
+ToFront(key) == <<key>> \o SelectSeq(lru, LAMBDA x : x # key)
+CacheGet(g) == /\ pc[g] = "cget"
+               /\ IF InLRU(ckey[g]) THEN lru' = ToFront(ckey[g]) /\ pc' = [pc EXCEPT ![g] = "get"]       \* hit: move to front
+                                     ELSE UNCHANGED lru /\ pc' = [pc EXCEPT ![g] = "cadd"]                \* miss: parse, then add
+               /\ UNCHANGED <<idle, made, code, dirty, hasMatch, cur, held, ncalls, ckey, sawClean, ranCode>>
+CacheAdd(g) == /\ pc[g] = "cadd"
+               /\ lru' = IF Recheck /\ InLRU(ckey[g]) THEN ToFront(ckey[g])
+                          ELSE LET ins == <<ckey[g]>> \o lru IN IF Len(ins) > MaxLRU THEN SubSeq(ins, 1, MaxLRU) ELSE ins
+               /\ pc' = [pc EXCEPT ![g] = "get"]
+               /\ UNCHANGED <<idle, made, code, dirty, hasMatch, cur, held, ncalls, ckey, sawClean, ranCode>>
 
 Get(g) == /\ pc[g] = "get"
           /\ \/ \E r \in idle : idle' = idle \ {r} /\ held' = [held EXCEPT ![g] = r] /\ UNCHANGED made
              \/ \E r \in Runners \ made : made' = made \cup {r} /\ held' = [held EXCEPT ![g] = r] /\ UNCHANGED idle
           /\ pc' = [pc EXCEPT ![g] = "select"]
-          /\ UNCHANGED <<code, dirty, hasMatch, cur, ncalls, lru, sawClean, ranCode>>
+          /\ UNCHANGED <<code, dirty, hasMatch, cur, ncalls, lru, ckey, sawClean, ranCode>>
 
 Select(g) == /\ pc[g] = "select"
              /\ code' = IF cur[g] = "bool" THEN [code EXCEPT ![held[g]] = "quick"] ELSE code
              /\ pc' = [pc EXCEPT ![g] = "init"]
-             /\ UNCHANGED <<idle, made, dirty, hasMatch, cur, held, ncalls, lru, sawClean, ranCode>>
+             /\ UNCHANGED <<idle, made, dirty, hasMatch, cur, held, ncalls, lru, ckey, sawClean, ranCode>>
 
 \* initMatch: reuse or create the match object, reset it, reset the three stack positions
 InitM(g) == /\ pc[g] = "init"
             /\ dirty' = [dirty EXCEPT ![held[g]] = FALSE]
             /\ hasMatch' = [hasMatch EXCEPT ![held[g]] = TRUE]
             /\ pc' = [pc EXCEPT ![g] = "scan"]
-            /\ UNCHANGED <<idle, made, code, cur, held, ncalls, lru, sawClean, ranCode>>
+            /\ UNCHANGED <<idle, made, code, cur, held, ncalls, lru, ckey, sawClean, ranCode>>
 
 Scan(g) == /\ pc[g] = "scan"
            /\ sawClean' = [sawClean EXCEPT ![g] = ~dirty[held[g]]]
@@ -90,20 +103,20 @@ Scan(g) == /\ pc[g] = "scan"
            /\ dirty' = [dirty EXCEPT ![held[g]] = TRUE]                       \* stacks, captures, balancing flag are used
            /\ hasMatch' = [hasMatch EXCEPT ![held[g]] = (cur[g] # "find")]    \* a returned match leaves with the caller
            /\ pc' = [pc EXCEPT ![g] = "put"]
-           /\ UNCHANGED <<idle, made, code, cur, held, ncalls, lru>>
+           /\ UNCHANGED <<idle, made, code, cur, held, ncalls, lru, ckey>>
 
 Put(g) == /\ pc[g] = "put"
           /\ code' = [code EXCEPT ![held[g]] = "full"]
           /\ idle' = idle \cup {held[g]}
           /\ held' = [held EXCEPT ![g] = NoRunner]
           /\ pc' = [pc EXCEPT ![g] = "idle"]
-          /\ UNCHANGED <<made, dirty, hasMatch, cur, ncalls, lru, sawClean, ranCode>>
+          /\ UNCHANGED <<made, dirty, hasMatch, cur, ncalls, lru, ckey, sawClean, ranCode>>
 
 Drop == /\ \E r \in idle : idle' = idle \ {r}
-        /\ UNCHANGED <<made, code, dirty, hasMatch, pc, cur, held, ncalls, lru, sawClean, ranCode>>
+        /\ UNCHANGED <<made, code, dirty, hasMatch, pc, cur, held, ncalls, lru, ckey, sawClean, ranCode>>
 
 Next == \/ \E g \in Gor : \/ \E k \in Kinds : Begin(g, k)
-                          \/ \E key \in Keys : Cache(g, key)
+                          \/ CacheGet(g) \/ CacheAdd(g)
                           \/ Get(g) \/ Select(g) \/ InitM(g) \/ Scan(g) \/ Put(g)
         \/ Drop
 Spec == Init /\ [][Next]_vars
